@@ -15,6 +15,7 @@ import (
 	"runtime"
 	"strings"
 	"sync"
+	"sync/atomic"
 	"time"
 	"unsafe"
 )
@@ -213,6 +214,8 @@ type Sched struct {
 	hash    uint64
 
 	minPrio  int
+	nthreads int
+	ndead    int
 	aborting bool
 	finished bool
 	outcome  Outcome
@@ -281,15 +284,38 @@ func Run(cfg Config, main func()) *Result {
 	s.cur = mt
 	mt.wake <- struct{}{}
 
-	wd := time.NewTimer(120 * time.Second)
-	select {
-	case <-s.doneCh:
-		wd.Stop()
-	case <-wd.C:
-		buf := make([]byte, 1<<20)
-		n := runtime.Stack(buf, true)
-		fmt.Fprintf(os.Stderr, "ENGINE-ERROR: watchdog: execution did not reach a scheduling point for 120s (uncontrolled blocking)\n%s\n", buf[:n])
-		os.Exit(2)
+	// watchdog: no scheduling point reached for 120 s of wall clock = uncontrolled blocking
+	last, idle := int64(-1), 0
+wait:
+	for {
+		wd := time.NewTimer(10 * time.Second)
+		select {
+		case <-s.doneCh:
+			wd.Stop()
+			break wait
+		case <-wd.C:
+			st := atomic.LoadInt64(&s.step)
+			if st != last {
+				last, idle = st, 0
+				continue
+			}
+			idle++
+			if idle < 12 {
+				continue
+			}
+			buf := make([]byte, 1<<20)
+			n := runtime.Stack(buf, true)
+			var ch []int
+			for _, c := range s.choices {
+				ch = append(ch, c.Chosen)
+			}
+			cur := "?"
+			if s.cur != nil {
+				cur = fmt.Sprintf("t%d[%s] op=%s @%s", s.cur.id, s.cur.name, opNames[s.cur.op.kind], s.cur.op.site)
+			}
+			fmt.Fprintf(os.Stderr, "ENGINE-ERROR: watchdog: execution did not reach a scheduling point for 120s (uncontrolled blocking); step=%d current=%s prefix=%v choices=%v\n%s\n", s.step, cur, cfg.Prefix, ch, buf[:n])
+			os.Exit(2)
+		}
 	}
 	// teardown
 	s.aborting = true
@@ -330,7 +356,8 @@ func Run(cfg Config, main func()) *Result {
 }
 
 func (s *Sched) newThread(name string, lib bool, fn func()) *thread {
-	t := &thread{id: len(s.threads), name: name, lib: lib, wake: make(chan struct{}, 1), fn: fn}
+	t := &thread{id: s.nthreads, name: name, lib: lib, wake: make(chan struct{}, 1), fn: fn}
+	s.nthreads++
 	t.op = op{kind: opResume, site: name}
 	t.ready = s.step
 	t.wasEnabled = true
@@ -357,6 +384,7 @@ func (s *Sched) threadMain(t *thread) {
 		t.done = true
 		t.exited = true
 		t.op = op{kind: opDoneKind}
+		s.ndead++
 		if r != nil {
 			stack := make([]byte, 16<<10)
 			n := runtime.Stack(stack, false)
@@ -439,7 +467,7 @@ func (s *Sched) block(t *thread) {
 // scheduler (may be done).
 func (s *Sched) dispatch(self *thread) {
 	for {
-		s.step++
+		atomic.AddInt64(&s.step, 1)
 		if int(s.step) > s.cfg.MaxSteps {
 			s.finish(StepLimit)
 			if !self.done {
@@ -681,6 +709,20 @@ type trange struct {
 // listed once, under the thread that continues (the running thread if it takes
 // part, else the sender).
 func (s *Sched) enumerate() ([]trans, bool) {
+	if s.ndead > 64 && s.ndead*2 > len(s.threads) {
+		k := 0
+		for _, t := range s.threads {
+			if !(t.done && t.exited) {
+				s.threads[k] = t
+				k++
+			}
+		}
+		for i := k; i < len(s.threads); i++ {
+			s.threads[i] = nil
+		}
+		s.threads = s.threads[:k]
+		s.ndead = 0
+	}
 	out := s.trbuf[:0]
 	cur := s.cur
 	ranges := s.rangebuf[:0]
